@@ -15,6 +15,7 @@ import json
 import os
 import re
 import time
+import zlib
 
 from vf.core import Check, REPO, HarnessError, lean_str, lean_bool
 
@@ -57,6 +58,8 @@ THEOREMS = [P + n for n in [
     "update_positions_copy",
     "meta_selects_lexeme",
     "generated_positions_shape_ok",
+    "parser_delegates_pass_sql",
+    "raise_error_dropped_sql_witness",
     # highlight_sql
     "highlight_selects",
     "highlight_context_bounds",
@@ -298,8 +301,9 @@ def parse_violation(sql: str, d):
                 for t in cands:
                     if hl == sql[t.start:t.end + 1] and sc == sql[max(0, t.start - ctx):t.start] and ec == sql[t.end + 1:t.end + 1 + ctx]:
                         ok = True
-                if not ok and not toks:
-                    ok = True
+                if not ok and (not toks or (has_empty_chunk(TT, [t for t in toks if not (t.token_type == TT.HIVE_TOKEN_STREAM and t.text == "")])
+                                            and (ln, co, hl, sc, ec) == (1, 1, sql[0:1], "", sql[1:1 + ctx]))):
+                    ok = True  # a statement without any token: raise_error's documented fallback Token.string("") = start of the text
                 if not ok:
                     cause = "hint-subparse" if any(t.token_type == TT.HINT for t in toks) else ""
                     return ("parseerror", cause, -1, f"ParseError line {ln} col {co} highlight {hl!r} (context {sc!r} | {ec!r}) does not select a lexeme "
@@ -334,6 +338,199 @@ def parse_violation(sql: str, d):
                     return ("meta", cause, -1, f"{cls} {want!r} carries the span of lexeme {sql[t.start:t.end + 1]!r} "
                                                f"(line {m.get('line')} col {m.get('col')} start {m['start']} end {m['end']})")
     return None
+
+
+# ------------------------------------------------------------------------------------------- public entry points
+_OVERRIDES: dict = {}
+
+
+def override_dialects() -> dict:
+    """dialects whose Parser / Tokenizer / Dialect class overrides parse, parse_into, _parse or tokenize (by introspection)"""
+    if _OVERRIDES:
+        return _OVERRIDES
+    _, _, Dialect, *_ = sg()
+    from sqlglot.parser import Parser
+    from sqlglot.tokens import Tokenizer
+
+    for d in all_dialects():
+        if d is None:
+            continue
+        dl = Dialect.get_or_raise(d)
+        why = []
+        for m in ("parse", "parse_into", "_parse", "raise_error"):
+            if getattr(dl.parser_class, m, None) is not getattr(Parser, m, None):
+                why.append("Parser." + m)
+        if dl.tokenizer_class.tokenize is not Tokenizer.tokenize:
+            why.append("Tokenizer.tokenize")
+        for m in ("parse", "parse_into", "tokenize", "tokenizer", "parser"):
+            if getattr(type(dl), m) is not getattr(Dialect, m):
+                why.append("Dialect." + m)
+        if why:
+            _OVERRIDES[d] = why
+    _OVERRIDES.setdefault("__done__", [])
+    return _OVERRIDES
+
+
+def override_names() -> list:
+    return [k for k in override_dialects() if k != "__done__"]
+
+
+def into_types():
+    _, exp, *_ = sg()
+    from sqlglot.parser import Parser
+
+    return [T for T in (exp.Select, exp.Condition, exp.Table) if T in Parser.EXPRESSION_PARSERS]
+
+
+def entry_points(d):
+    """every public entry point that can raise a positioned ParseError, as (name, callable(sql))"""
+    sqlglot, exp, Dialect, *_ = sg()
+    dl, _ = tok_class(d)
+    out = [("parse", lambda s: sqlglot.parse(s, read=d)),
+           ("parse_one", lambda s: sqlglot.parse_one(s, read=d)),
+           ("Dialect.parse", lambda s: dl.parse(s)),
+           ("transpile", lambda s: sqlglot.transpile(s, read=d, write=d))]
+    for T in into_types():
+        out.append((f"parse_one(into={T.__name__})", lambda s, T=T: sqlglot.parse_one(s, read=d, into=T)))
+        out.append((f"Dialect.parse_into({T.__name__})", lambda s, T=T: dl.parse_into(T, s)))
+        out.append((f"maybe_parse(into={T.__name__})", lambda s, T=T: exp.maybe_parse(s, into=T, dialect=d)))
+    return out
+
+
+def has_empty_chunk(TT, toks) -> bool:
+    """Parser._parse splits the token list at semicolons; is one of the statement chunks empty?  (then raise_error has no
+    token, _curr or _prev to describe and falls back to Token.string("") = line 1, col 1, offset 0)"""
+    chunks = [[]]
+    total = len(toks)
+    for i, t in enumerate(toks):
+        if t.token_type == TT.SEMICOLON:
+            if t.comments:
+                chunks.append([t])
+            if i < total - 1:
+                chunks.append([])
+        else:
+            chunks[-1].append(t)
+    return any(not c for c in chunks)
+
+
+def entry_violation(sql: str, d):
+    """the ParseError clause at EVERY public entry point: each positioned error dict selects, in the statement text, a lexeme
+    at the reported line/col: highlight == sql[start:end+1] and the contexts are the surrounding text"""
+    _, exp, _, _, TT, TokenError, ParseError, ErrorLevel, _ = sg()
+    dl, T = tok_class(d)
+    try:
+        toks = dl.tokenize(sql)
+    except TokenError:
+        return None
+    if token_violation(sql, d, toks) is not None:
+        return None
+    real = [t for t in toks if not (t.token_type == TT.HIVE_TOKEN_STREAM and t.text == "")]
+    has_hint = any(t.token_type == TT.HINT for t in toks)
+    ctx = 100
+    for name, fn in entry_points(d):
+        try:
+            fn(sql)
+        except ParseError as e:
+            for err in e.errors:
+                ln, co, hl = err.get("line"), err.get("col"), err.get("highlight")
+                sc, ec = err.get("start_context"), err.get("end_context")
+                if ln is None and co is None and hl is None:
+                    continue
+                ok = not real
+                if has_empty_chunk(TT, real) and (ln, co, hl, sc, ec) == (1, 1, sql[0:1], "", sql[1:1 + ctx]):
+                    ok = True  # a statement without any token: raise_error's documented fallback Token.string("") = start of the text
+                for t in real:
+                    if (t.line == ln and t.col == co and hl == sql[t.start:t.end + 1]
+                            and sc == sql[max(0, t.start - ctx):t.start] and ec == sql[t.end + 1:t.end + 1 + ctx]):
+                        ok = True
+                        break
+                if not ok:
+                    cause = "hint-subparse" if has_hint else "entry:" + name
+                    return ("parseerror", cause, -1, f"{name}: ParseError line {ln} col {co} highlight {hl!r} (context {sc!r} | {ec!r}) does "
+                                                     f"not select a lexeme at that line/column of the statement text")
+        except Exception:
+            continue
+    return None
+
+
+ERROR_INPUTS = ["select a from", "select a,\n from t where", "select * from t where (a = 1", "a +", "select a from t join",
+                "insert into t values (1,", "select cast(a as) from t", "create table t (a int, b", "alter table t add columns (a int",
+                "select a from t where b in (1, 2", "drop table if", "select 'x' ||"]
+
+
+def check_sql_premise(chk: Check) -> list:
+    """Premise of raise_error_on_lexed_token / meta_selects_lexeme on the REAL parser object: whenever raise_error runs,
+    `self.sql` is the statement text the tokens were lexed from — at every public entry point, for every dialect that
+    overrides parse / parse_into / tokenize and a sample of the others."""
+    from sqlglot.parser import Parser
+
+    rng = chk.rng
+    others = [d for d in all_dialects() if d not in override_names()]
+    dialects = override_names() + [None] + rng.sample([d for d in others if d], chk.pick(4, len(others) - 1))
+    seen: list = []
+    orig = Parser.raise_error
+
+    def spy(self, *a, **k):
+        seen.append(self.sql)
+        return orig(self, *a, **k)
+
+    bad = []
+    Parser.raise_error = spy
+    try:
+        for d in dialects:
+            for sql in ERROR_INPUTS:
+                for name, fn in entry_points(d):
+                    del seen[:]
+                    try:
+                        fn(sql)
+                    except Exception:
+                        pass
+                    chk.corr_cases += 1
+                    chk.count("premise:" + ("raised" if seen else "no-error"))
+                    wrong = [x for x in seen if x != sql]
+                    if wrong and not any(b[0] == d and b[2] == name for b in bad):
+                        bad.append((d, sql, name, wrong[0]))
+    finally:
+        Parser.raise_error = orig
+    for d, sql, name, got in bad[:4]:
+        chk.correspondence_broken("premise of raise_error_on_lexed_token fails on the real parser: parser.sql is not the statement text "
+                                  "the tokens were lexed from", {"dialect": d, "entry_point": name, "sql": sql, "parser.sql": got})
+    chk.cov["sql_premise"] = {"dialects": [d or "base" for d in dialects], "entry_points": len(entry_points(None)),
+                              "inputs": len(ERROR_INPUTS), "violations": len(bad)}
+    return [(d, sql) for d, sql, _, _ in bad]
+
+
+def delegate_table(chk: Check) -> list:
+    """every call `.parse(..)` / `.parse_into(..)` / `._parse(..)` made from a function that has a `sql` parameter, in parser.py,
+    parsers/*.py, dialects/*.py and sqlglot/__init__.py: (site, callee, does it hand `sql` on?)"""
+    import ast
+    import glob
+
+    files = [os.path.join(REPO, "sqlglot", "parser.py"), os.path.join(REPO, "sqlglot", "__init__.py")]
+    files += sorted(glob.glob(os.path.join(REPO, "sqlglot", "parsers", "*.py")))
+    files += sorted(glob.glob(os.path.join(REPO, "sqlglot", "dialects", "*.py")))
+    rows = []
+    for f in files:
+        try:
+            tree = ast.parse(open(f, encoding="utf-8").read())
+        except Exception as e:  # noqa
+            chk.broken.append({"kind": "translator", "what": f"C13 translator: cannot parse {f}: {e!r}"})
+            continue
+        for fn in ast.walk(tree):
+            if not isinstance(fn, (ast.FunctionDef, ast.AsyncFunctionDef)):
+                continue
+            if not any(a.arg == "sql" for a in fn.args.args + fn.args.kwonlyargs):
+                continue
+            for c in ast.walk(fn):
+                if isinstance(c, ast.Call) and isinstance(c.func, ast.Attribute) and c.func.attr in ("parse", "parse_into", "_parse"):
+                    passes = (any(isinstance(a, ast.Name) and a.id == "sql" for a in c.args)
+                              or any(isinstance(k.value, ast.Name) and k.value.id == "sql" for k in c.keywords))
+                    rows.append((os.path.relpath(f, REPO) + ":" + fn.name, ast.unparse(c.func), passes))
+    rows.sort()
+    if not any(r[0].startswith("sqlglot/parser.py:parse") for r in rows) or not any("dialect.py:parse" in r[0] for r in rows):
+        chk.broken.append({"kind": "translator", "what": "C13 translator: structure changed: Parser.parse / Dialect.parse delegate calls not found"})
+    chk.cov["parser_delegates"] = len(rows)
+    return rows
 
 
 # ------------------------------------------------------------------------------------------- minimise + skeleton
@@ -414,7 +611,7 @@ def skeleton(sql: str, d) -> str:
 def report(chk: Check, sql: str, d, v, which: str):
     """minimise, key and report one violation found by `which` in ('tokens', 'parse')."""
     kind, cause = v[0], v[1]
-    fn = token_violation if which == "tokens" else parse_violation
+    fn = {"tokens": token_violation, "parse": parse_violation, "entry": entry_violation}[which]
 
     def pred(s):
         try:
@@ -746,6 +943,10 @@ def translate(chk: Check) -> str:
         "/-- structural facts read with `ast` from Parser.raise_error and expressions/core.py -/",
         f"def positionMetaKeys : List String := {lstrs(position_meta_keys())}",
         f"def raiseErrorShape : List String := {lstrs(raise_error_shape(chk))}",
+        "/-- every delegate call to .parse / .parse_into / ._parse made from a function that holds the statement text `sql`:",
+        "    (site, callee, hands `sql` on) -/",
+        "def parserDelegates : List (String × String × Bool) := ["
+        + ", ".join(f"({lean_str(a)}, {lean_str(b)}, {lean_bool(c)})" for a, b, c in delegate_table(chk)) + "]",
         "end SqlglotModel.Generated.C13",
         "",
     ]
@@ -997,9 +1198,10 @@ def search(chk: Check, hints: list, budget_s: float) -> None:
     rng = chk.rng
     t0 = time.time()
     dialects = all_dialects()
-    n = {"tokens": 0, "parse": 0, "violating": 0, "token_errors": 0, "marker_tokens": 0}
+    n = {"tokens": 0, "parse": 0, "entry": 0, "violating": 0, "token_errors": 0, "marker_tokens": 0}
+    overrides = override_names()
 
-    def consider(d, sql, parse=False):
+    def consider(d, sql, parse=False, entry=False):
         if not supported_chars(sql):
             return
         n["tokens"] += 1
@@ -1017,7 +1219,20 @@ def search(chk: Check, hints: list, budget_s: float) -> None:
             if v is not None:
                 n["violating"] += 1
                 report(chk, sql, d, v, "parse")
+                return
+            # every public entry point: always for dialects that override parse / parse_into / tokenize, a share of the others
+            if d in overrides or entry or zlib.crc32(sql.encode("utf-8", "replace")) % 8 == 0:
+                n["entry"] += 1
+                v = entry_violation(sql, d)
+                if v is not None:
+                    n["violating"] += 1
+                    report(chk, sql, d, v, "entry")
 
+    for d in overrides + [None]:
+        for s in ERROR_INPUTS:
+            if len(chk.violations) >= 3:
+                break
+            consider(d, s, parse=True, entry=True)
     for d, s in WITNESSES + list(hints)[:60]:
         if len(chk.violations) >= 3:
             break
@@ -1025,7 +1240,7 @@ def search(chk: Check, hints: list, budget_s: float) -> None:
     i = 0
     while time.time() - t0 < budget_s and len(chk.violations) < 3:
         i += 1
-        d = rng.choice(dialects)
+        d = rng.choice(overrides) if overrides and i % 6 == 5 else rng.choice(dialects)
         r = i % 4
         if r == 0:
             s = gen_soup(rng)
@@ -1039,7 +1254,9 @@ def search(chk: Check, hints: list, budget_s: float) -> None:
     chk.search_info = {"ran": True, "budget_s": budget_s, **n,
                        "oracle": "tokens ordered / non-overlapping / inside the input, gaps are whitespace or comments, line/col agree with "
                                  "the end offset, token text is its span (non-normalised kinds), TokenError window, ParseError "
-                                 "line/col/highlight select a lexeme, meta start/end/line/col coincide with a token and identifiers carry their own lexeme"}
+                                 "line/col/highlight select a lexeme (at every public entry point: parse, parse_one with and without into=, "
+                                 "Dialect.parse / parse_into, maybe_parse(into=), transpile), every node with position meta coincides with a "
+                                 "token and carries its own lexeme", "override_dialects": {k: v for k, v in override_dialects().items() if k != "__done__"}}
 
 
 # =========================================================================================== entry points
@@ -1087,6 +1304,7 @@ def run(chk: Check) -> None:
     hints = []
     try:
         hints = correspond(chk)
+        hints = check_sql_premise(chk) + hints
     except HarnessError as e:
         if proved:
             raise
@@ -1106,7 +1324,7 @@ def replay(path: str) -> int:
     if not r:
         print(json.dumps(rec, indent=1)[:3000])
         return 1
-    fn = token_violation if r.get("oracle") == "tokens" else parse_violation
+    fn = {"tokens": token_violation, "parse": parse_violation, "entry": entry_violation}.get(r.get("oracle"), parse_violation)
     v = fn(r["sql"], r["dialect"])
     print("replay:", ("VIOLATES: " + v[3]) if v else "holds", "| input:", repr(r["sql"]), "dialect:", r["dialect"])
     return 1 if v else 0
